@@ -93,7 +93,9 @@ def _letters_only(x):
 
 
 def _lit(x):
-    if isinstance(x, (int, float)):
+    if isinstance(x, (int, float, dict, list, set, tuple)) or x is None:
+        # the real function raises ValueError("malformed node or string: " + repr(x)); the repr
+        # would realise every symbolic leaf inside x and the callers discard the message
         raise ValueError("malformed node or string")
     if isinstance(x, str):
         with NoTracing():
